@@ -121,7 +121,7 @@ class CuckooSystem(System):
         if tier == "quick":
             budget = (1500 if prop == "C05" else 2500) if heavy else (7000 if prop == "C14" else (14000 if prop == "C15" else 30000))
         else:
-            budget = 30000 if heavy else (60000 if prop == "C15" else 150000)
+            budget = (12000 if prop == "C19" else 30000) if heavy else (40000 if prop in ("C15", "C14") else 150000)
         for cls in classes:
             for cap in caps:
                 for bs in (1, 2):
